@@ -170,7 +170,7 @@ CHECK = {
     "suites": [{
         "name": "rrl",
         "impl_bin": "impl_c26", "extract": "Extract/ExC26.v", "driver": "run_c26.ml",
-        "gen": gen, "nontrivial": nontrivial, "classify": classify,
+        "gen": gen, "nontrivial": nontrivial, "classify": classify, "release_too": True,
         "exhaustive": {"quick": False, "thorough": False},
         "rule": ("seeded single-stream histories through Server::handle_message on a one-zone catalog (one Server per case): "
                  "rates 1..12 / windows 1..8 mostly, boundary and rejected configurations, slip 0/1/2/3/10, table sizes 1/2/7/65537, "
